@@ -98,6 +98,8 @@ pub(crate) fn remove_all_digests(claims: &mut Value) -> Result<(), Error> {
     Ok(())
 }
 pub(crate) fn format_path(parent_path: &str, key: &str) -> String {
+    // paths are JSON pointers (RFC 6901), like the ones the issuer resolves
+    let key = &key.replace('~', "~0").replace('/', "~1");
     if parent_path.is_empty() {
         format!("/{}", key)
     } else {
